@@ -206,10 +206,32 @@ def rules(rep, m):
                   "units and returns with success passes what is left on to the next waiter of its own kind - on every "
                   "success return of a multi-unit take (buffer put / get, pool acquire) the guard the caller itself waits at "
                   "is signalled again, unconditionally or under 'something is left'", floor=3)
-    SIGNAL_ON = (("cmb_buffer_put", "rear_guard", r"\(\S+->level < \S+->capacity\)|\(\S+->capacity > \S+->level\)|\(\(\S+->capacity - \S+->level\) > 0\)"),
-                 ("cmb_buffer_get", "front_guard", r"\(\S+->level > 0\)|\(\S+->level != 0\)|!\(\S+->level == 0\)"),
-                 ("cmi_pool_acquire_inner", "guard", r"\(\S+->in_use < \S+->capacity\)|\(\S+->capacity > \S+->in_use\)"))
-    for fn, gname, remains in SIGNAL_ON:
+    # 'something is left' for the caller's own kind, as a predicate on (amount field, capacity): the extra condition of the
+    # signal must hold in every state where something is left (it is evaluated, not matched: any spelling is accepted)
+    SIGNAL_ON = (("cmb_buffer_put", "rear_guard", "level", lambda lv, cap: lv < cap),
+                 ("cmb_buffer_get", "front_guard", "level", lambda lv, cap: lv > 0),
+                 ("cmi_pool_acquire_inner", "guard", "in_use", lambda lv, cap: lv < cap))
+
+    def holds_whenever_left(cond, field, left):
+        e = re.sub(r"[A-Za-z_]\w*->%s\b" % field, " AMT ", cond)
+        e = re.sub(r"[A-Za-z_]\w*->capacity\b", " CAP ", e)
+        e = e.replace("&&", " and ").replace("||", " or ")
+        e = re.sub(r"!(?!=)", " not ", e)
+        e = re.sub(r"(?<=\d)[uUlL]+\b", "", e)
+        if not re.fullmatch(r"[\sAMTCP()<>=!+\-*\dandortn]*", e) or re.search(r"[A-Za-z_]\w*", re.sub(r"\b(AMT|CAP|and|or|not)\b", "", e)):
+            return None
+        for cap in (1, 2, 5, 100, 2 ** 64 - 1):
+            for amt in sorted({0, 1, cap // 2, cap - 1, cap}):
+                if amt > cap or not left(amt, cap):
+                    continue
+                try:
+                    v = eval(e, {"__builtins__": {}}, {"AMT": amt, "CAP": cap})
+                except Exception:
+                    return None
+                if not v:
+                    return False
+        return True
+    for fn, gname, field, left in SIGNAL_ON:
         f = m.need(fn)
         fx = FuncCtx(m, f)
         waits_here = [c for c in walk(f.body) if c["kind"] == "CallExpr" and callee_ref(c) == "cmb_resourceguard_wait" and
@@ -226,7 +248,7 @@ def rules(rep, m):
             for sg in sigs:
                 sc = inv.dominating_conditions(fx, f, sg)
                 extra = [cd for cd in sc if cd not in rc]
-                if all(cd in sc for cd in rc) and all(re.fullmatch(remains, cd) for cd in extra) and \
+                if all(cd in sc for cd in rc) and all(holds_whenever_left(cd, field, left) is True for cd in extra) and \
                         order[id(sg)] < order[id(rt)]:
                     ok = True
             r6.instance("%s: success return at line %s hands leftovers on to '%s': %s" % (fn, rt.get("line") or (loc(rt) or "").split(":")[-1], gname, ok))
